@@ -17,10 +17,17 @@
 (*    in the left order and, under each name, the left value then the      *)
 (*    right value of THAT name (matching is by name, hidden columns never  *)
 (*    take part).                                                          *)
+(*  - "joinrows": two tables (lid, k) and (rid, k) holding EVERY sequence  *)
+(*    of keys over JKeys up to JMaxLen rows (duplicates, nulls, empty      *)
+(*    sides), joined with how in {inner, left, full} on l.k == r.k, on the *)
+(*    string "k", or (inner / left) on l.k <= r.k.  Expected (C06): the    *)
+(*    pairs (lid, rid) whose keys are non-null and satisfy the predicate,  *)
+(*    plus each unmatched left row padded for left / full, plus each       *)
+(*    unmatched right row padded for full - each exactly once.             *)
 (***************************************************************************)
 EXTENDS Integers, Sequences, FiniteSets, TLC, Json, IOUtils
 
-CONSTANTS Mode, Ns, Ks, Sizes, UCols
+CONSTANTS Mode, Ns, Ks, Sizes, UCols, JKeys, JMaxLen      \* JKeys: key values (0 stands for NULL), JMaxLen: rows per side
 
 SeqSet(s) == {s[i] : i \in DOMAIN s}
 Perms(S) == {p \in [1..Cardinality(S) -> S] : \A i, j \in 1..Cardinality(S) : i # j => p[i] # p[j]}
@@ -30,6 +37,24 @@ SliceArgs == {<<n, k>> : n \in Ns, k \in Ks}
 SliceSeqs == UNION {[1..m -> SliceArgs] : m \in 1..3}
 SliceConfigs == {[verb |-> "slices", size |-> z, args |-> a, alias |-> al] : z \in Sizes, a \in SliceSeqs, al \in BOOLEAN}
 UnionConfigs == {[verb |-> "union", l |-> l, r |-> r, distinct |-> d] : l \in Arrs(SeqSet(UCols)), r \in Arrs(SeqSet(UCols)), d \in BOOLEAN}
+
+KeySeqs == UNION {[1..m -> JKeys] : m \in 0..JMaxLen}
+JoinConfigs == {[verb |-> "joinrows", l |-> l, r |-> r, how |-> h, on |-> o] :
+                    l \in KeySeqs, r \in KeySeqs, h \in {"inner", "left", "full"}, o \in {"eq", "str", "le"}}
+JoinValid(c) == c.on = "le" => c.how # "full"          \* a full join takes equality predicates only (documented ValueError otherwise)
+
+JoinExpected(c) ==      \* set of <<lid, rid>>, 0 = padded with nulls
+    LET match(i, j) == c.l[i] # 0 /\ c.r[j] # 0 /\ (IF c.on = "le" THEN c.l[i] <= c.r[j] ELSE c.l[i] = c.r[j])
+        inner == {<<i, j>> : i \in DOMAIN c.l, j \in DOMAIN c.r} \cap {p \in (DOMAIN c.l) \X (DOMAIN c.r) : match(p[1], p[2])}
+        lpad == {<<i, 0>> : i \in {i \in DOMAIN c.l : \A j \in DOMAIN c.r : ~match(i, j)}}
+        rpad == {<<0, j>> : j \in {j \in DOMAIN c.r : \A i \in DOMAIN c.l : ~match(i, j)}}
+    IN inner \cup (IF c.how \in {"left", "full"} THEN lpad ELSE {}) \cup (IF c.how = "full" THEN rpad ELSE {})
+
+JudgeJoin(c, out, err) ==
+    IF err # "" THEN "unexpected-error"
+    ELSE LET e == JoinExpected(c) IN
+         IF Len(out) # Cardinality(e) THEN "row-count"
+         ELSE IF {out[i] : i \in DOMAIN out} = e THEN "ok" ELSE "rows"
 
 RECURSIVE Keep(_, _, _)
 Keep(rows, a, i) ==      \* apply slice_head a[i], a[i+1], ... to the sequence of row ids
@@ -58,10 +83,12 @@ Recs == IF Mode = "check" THEN ndJsonDeserialize(IOEnv.VERIF_ARGSPACE) ELSE <<>>
 
 ASSUME Mode = "gen" => /\ \A c \in SliceConfigs : PrintT(ToJson(c))
                        /\ \A c \in UnionConfigs : PrintT(ToJson(c))
+                       /\ \A c \in JoinConfigs : JoinValid(c) => PrintT(ToJson(c))
 ASSUME Mode = "check" =>
     \A i \in DOMAIN Recs :
         LET r == Recs[i] IN
         PrintT(ToJson([i |-> i, verdict |-> IF r.c.verb = "slices" THEN JudgeSlices(r.c, r.out, r.err)
+                                            ELSE IF r.c.verb = "joinrows" THEN JudgeJoin(r.c, r.out, r.err)
                                             ELSE JudgeUnion(r.c, r.names, r.out, r.err)]))
 
 VARIABLE x
